@@ -36,6 +36,7 @@ fn history(re: &regress::Regex, hay: &str, start: usize, api: Api, extra: usize)
         macro_rules! drive {
             ($it:expr) => {{
                 let mut it = $it;
+                let mut ended = false;
                 loop {
                     match it.next() {
                         Some(m) => {
@@ -44,10 +45,14 @@ fn history(re: &regress::Regex, hay: &str, start: usize, api: Api, extra: usize)
                                 break;
                             }
                         }
-                        None => break,
+                        None => {
+                            ended = true;
+                            break;
+                        }
                     }
                 }
-                for _ in 0..extra {
+                // (a history cut off at the cap has not returned None yet)
+                for _ in 0..(if ended { extra } else { 0 }) {
                     if it.next().is_some() {
                         absorbing = false;
                     }
